@@ -42,7 +42,9 @@ RULE_ADDED = (
               ' '
               'Round 15: the commands TCPSigner / SGX have also over those transports; the faul'
               'ted request right after one the device refused; faults in the bootloader part of'
-              ' a repair (mode .. unlock) - a stop at the retries query is a known finding. ')
+              ' a repair (mode .. unlock) - a stop at the retries query is a known finding. '
+              ' '
+              'Round 16: repairs through the bootloader with exactly two PIN retries left. ')
 RULE = RULE + " " + RULE_ADDED.strip()
 ASSUMPTIONS = [
     "fault kinds are those of the HID transport (write() < 0, read error, time-out) as the "
@@ -356,6 +358,10 @@ def run_case_(acc, c, roles=None):
         if c["variant"] in ("reboot", "powercycle") or c["variant"].startswith("rebootlate"):
             dev.mode = MODE_BOOTLOADER
             dev.unlocked = False
+            if zlib.crc32(repr(sorted(c.items())).encode()) % 5 < 2:
+                # (the device has just enough PIN attempts left for the manager to try: two)
+                dev.retries = 2
+                acc.count("repairs_through_the_bootloader_with_two_retries_left")
         old_handle = s.bus.handle_seq
         s.bus.enumerate_fail = c["j"]
         if c["variant"] == "reboot-noreopen":
